@@ -89,6 +89,56 @@ def ev_client_connectRecover : List String :=
   ["func-literal", "if e != nil", "call func() int { c.mu.Lock() defer c.mu.Unlock() c.connectAttempt++ return c.connectAttempt }()", "func-literal", "call c.mu.Lock()", "call c.mu.Unlock()", "return c.connectAttempt", "if attempt > 1", "call reconnectTimeout(attempt)", "select-case <-ctx.Wait()", "return nil, ctx.Status()", "select-case <-time.After(timeout)", "call c.connector.connect(ctx, c.addr)", "if !st.OK()", "return nil, st", "call c.handle(conn)", "call c.mu.Lock()", "call c.mu.Unlock()", "if c.closed_.IsSet()", "call c.closed_.IsSet()", "call conn.Close()", "return nil, status.Closedf(\"mpx client closed\")", "call status.Closedf(\"mpx client closed\")", "call c.conns.Load().add(conn)", "call c.conns.Load()", "call c.conns.Store(conns)", "call c.connected_.Set()", "call c.disconnected_.Unset()", "return conn, status.OK"]
 def ev_reconnectTimeout : List String :=
   ["assign multi := uint16(1<<attempt - 2)", "assign timeout := minConnectRetryTimeout * time.Duration(multi)", "return min(timeout, maxConnectRetryTimeout)", "call min(timeout, maxConnectRetryTimeout)"]
+def ev_pool_writerState_reset : List String :=
+  ["assign s.buf = nil", "call s.stack.reset()", "call s.elements.reset()", "call s.fields.reset()"]
+def ev_pool_writerState_init : List String :=
+  ["call s.reset()", "assign s.buf = b"]
+def ev_pool_releaseWriterState : List String :=
+  ["call s.reset()", "call writerStatePool.Put(s)"]
+def ev_pool_writer_reset : List String :=
+  ["if w.writerState != nil", "assign w.err = nil"]
+def ev_pool_stack_reset : List String :=
+  ["assign s.stack = s.stack[:0]"]
+def ev_pool_listStack_reset : List String :=
+  ["assign s.stack = s.stack[:0]"]
+def ev_pool_messageStack_reset : List String :=
+  ["assign s.stack = s.stack[:0]"]
+def ev_pool_mpx_channelState_reset : List String :=
+  ["if s.ctx != nil", "call s.ctx.Free()", "assign s.ctx = nil", "assign sendWindowWait := s.sendWindowWait", "select-case <-sendWindowWait", "select-default", "assign recvQueue := s.recvQueue", "call recvQueue.Reset()", "assign *s = channelState{}", "assign s.sendWindowWait = sendWindowWait", "assign s.recvQueue = recvQueue"]
+def ev_pool_mpx_releaseChannelState2 : List String :=
+  ["call s.reset()", "call channelStatePool.Put(s)"]
+def ev_pool_mpx_releaseChannelHandler : List String :=
+  ["assign *h = channelHandler{}", "call channelHandlerPool.Put(h)"]
+def ev_pool_rpc_channelState_reset : List String :=
+  ["assign s.ch = nil", "assign s.logger = nil", "assign s.method = s.method[:0]", "assign s.sendReq = false", "assign s.sendEnd = false", "assign s.recvEnd = false", "assign s.recvResp = false", "assign s.recvFailed = false", "assign s.recvError = status.None", "assign s.result = nil", "assign s.resultOK = false", "assign s.resultSt = status.None"]
+def ev_pool_rpc_releaseState : List String :=
+  ["call s.reset()", "call statePool.Put(s)"]
+def ev_pool_rpc_requestState_reset : List String :=
+  ["call s.buf.Reset()", "call s.writer.Reset(s.buf)", "assign s.req = prpc.NewRequestWriterTo(s.writer.Message())", "assign s.calls = s.req.Calls()", "assign s.done = false"]
+def ev_pool_rpc_releaseRequestState : List String :=
+  ["call s.reset()", "call requestStatePool.Put(s)"]
+def ev_pool_rpc_serverChannelState_reset : List String :=
+  ["assign s.ch = nil", "assign s.method = s.method[:0]", "assign s.sendReq = false", "assign s.sendEnd = false", "assign s.recvReq = prpc.Request{}", "assign s.recvEnd = false", "assign s.recvFailed = false", "assign s.recvError = status.None"]
+def ev_pool_rpc_releaseServerState : List String :=
+  ["call s.reset()", "call serverStatePool.Put(s)"]
+def ev_gen_typeWriteFunc : List String :=
+  ["switch kind", "case model.KindAny", "return \"spec.WriteValue\"", "case model.KindBool", "return \"spec.EncodeBool\"", "case model.KindByte", "return \"spec.EncodeByte\"", "case model.KindInt16", "return \"spec.EncodeInt16\"", "case model.KindInt32", "return \"spec.EncodeInt32\"", "case model.KindInt64", "return \"spec.EncodeInt64\"", "case model.KindUint16", "return \"spec.EncodeUint16\"", "case model.KindUint32", "return \"spec.EncodeUint32\"", "case model.KindUint64", "return \"spec.EncodeUint64\"", "case model.KindBin64", "return \"spec.EncodeBin64\"", "case model.KindBin128", "return \"spec.EncodeBin128\"", "case model.KindBin256", "return \"spec.EncodeBin256\"", "case model.KindFloat32", "return \"spec.EncodeFloat32\"", "case model.KindFloat64", "return \"spec.EncodeFloat64\"", "case model.KindBytes", "return \"spec.EncodeBytes\"", "case model.KindString", "return \"spec.EncodeString\"", "case model.KindAnyMessage", "return \"spec.WriteMessage\"", "case model.KindEnum", "if typ.Import != nil", "return fmt.Sprintf(\"%v.Encode%vTo\", typ.ImportName, typ.Name)", "call fmt.Sprintf(\"%v.Encode%vTo\", typ.ImportName, typ.Name)", "return fmt.Sprintf(\"Encode%vTo\", typ.Name)", "call fmt.Sprintf(\"Encode%vTo\", typ.Name)", "case model.KindList", "if elem.Kind == model.KindMessage", "return fmt.Sprintf(\"spec.NewMessageListWriter\")", "call fmt.Sprintf(\"spec.NewMessageListWriter\")", "return fmt.Sprintf(\"spec.NewValueListWriter\")", "call fmt.Sprintf(\"spec.NewValueListWriter\")", "case model.KindMessage", "if typ.Import != nil", "return fmt.Sprintf(\"%v.New%vWriterTo\", typ.ImportName, typ.Name)", "call fmt.Sprintf(\"%v.New%vWriterTo\", typ.ImportName, typ.Name)", "return fmt.Sprintf(\"New%vWriterTo\", typ.Name)", "call fmt.Sprintf(\"New%vWriterTo\", typ.Name)", "case model.KindStruct", "if typ.Import != nil", "return fmt.Sprintf(\"%v.Encode%vTo\", typ.ImportName, typ.Name)", "call fmt.Sprintf(\"%v.Encode%vTo\", typ.ImportName, typ.Name)", "return fmt.Sprintf(\"Encode%vTo\", typ.Name)", "call fmt.Sprintf(\"Encode%vTo\", typ.Name)", "return \"\""]
+def ev_gen_typeDecodeFunc : List String :=
+  ["switch kind", "case model.KindAny", "return \"spec.ParseValue\"", "case model.KindBool", "return \"spec.DecodeBool\"", "case model.KindByte", "return \"spec.DecodeByte\"", "case model.KindInt16", "return \"spec.DecodeInt16\"", "case model.KindInt32", "return \"spec.DecodeInt32\"", "case model.KindInt64", "return \"spec.DecodeInt64\"", "case model.KindUint16", "return \"spec.DecodeUint16\"", "case model.KindUint32", "return \"spec.DecodeUint32\"", "case model.KindUint64", "return \"spec.DecodeUint64\"", "case model.KindBin64", "return \"spec.DecodeBin64\"", "case model.KindBin128", "return \"spec.DecodeBin128\"", "case model.KindBin256", "return \"spec.DecodeBin256\"", "case model.KindFloat32", "return \"spec.DecodeFloat32\"", "case model.KindFloat64", "return \"spec.DecodeFloat64\"", "case model.KindBytes", "return \"spec.DecodeBytes\"", "case model.KindString", "return \"spec.DecodeString\"", "case model.KindAnyMessage", "return \"spec.ParseMessage\"", "case model.KindList", "if elem.Kind == model.KindMessage", "return fmt.Sprintf(\"spec.OpenMessageListErr[%v]\", name)", "call fmt.Sprintf(\"spec.OpenMessageListErr[%v]\", name)", "return fmt.Sprintf(\"spec.OpenValueListErr[%v]\", name)", "call fmt.Sprintf(\"spec.OpenValueListErr[%v]\", name)", "case model.KindEnum, model.KindStruct", "if typ.Import != nil", "return fmt.Sprintf(\"%v.Decode%v\", typ.ImportName, typ.Name)", "call fmt.Sprintf(\"%v.Decode%v\", typ.ImportName, typ.Name)", "return fmt.Sprintf(\"Decode%v\", typ.Name)", "call fmt.Sprintf(\"Decode%v\", typ.Name)", "case model.KindMessage", "if typ.Import != nil", "return fmt.Sprintf(\"%v.Open%vErr\", typ.ImportName, typ.Name)", "call fmt.Sprintf(\"%v.Open%vErr\", typ.ImportName, typ.Name)", "return fmt.Sprintf(\"Open%vErr\", typ.Name)", "call fmt.Sprintf(\"Open%vErr\", typ.Name)", "return \"\""]
+def ev_gen_typeName : List String :=
+  ["switch kind", "case model.KindAny", "return \"spec.Value\"", "case model.KindBool", "return \"bool\"", "case model.KindByte", "return \"byte\"", "case model.KindInt16", "return \"int16\"", "case model.KindInt32", "return \"int32\"", "case model.KindInt64", "return \"int64\"", "case model.KindUint16", "return \"uint16\"", "case model.KindUint32", "return \"uint32\"", "case model.KindUint64", "return \"uint64\"", "case model.KindFloat32", "return \"float32\"", "case model.KindFloat64", "return \"float64\"", "case model.KindBin64", "return \"bin.Bin64\"", "case model.KindBin128", "return \"bin.Bin128\"", "case model.KindBin256", "return \"bin.Bin256\"", "case model.KindBytes", "return \"[]byte\"", "case model.KindString", "return \"string\"", "case model.KindAnyMessage", "return \"spec.Message\"", "case model.KindList", "if typ.Element.Kind == model.KindMessage", "return fmt.Sprintf(\"spec.MessageList[%v]\", elem)", "call fmt.Sprintf(\"spec.MessageList[%v]\", elem)", "return fmt.Sprintf(\"spec.ValueList[%v]\", elem)", "call fmt.Sprintf(\"spec.ValueList[%v]\", elem)", "case model.KindEnum, model.KindMessage, model.KindStruct", "if typ.Import != nil", "return fmt.Sprintf(\"%v.%v\", typ.ImportName, typ.Name)", "call fmt.Sprintf(\"%v.%v\", typ.ImportName, typ.Name)", "return typ.Name", "case model.KindService", "if typ.Import != nil", "return fmt.Sprintf(\"%v.%v\", typ.ImportName, typ.Name)", "call fmt.Sprintf(\"%v.%v\", typ.ImportName, typ.Name)", "return typ.Name", "call panic(fmt.Sprintf(\"unsupported type kind %v\", typ.Kind))", "call fmt.Sprintf(\"unsupported type kind %v\", typ.Kind)"]
+def ev_gen_message_field : List String :=
+  ["switch kind", "default", "switch kind", "case model.KindBool", "case model.KindByte", "case model.KindInt16", "case model.KindInt32", "case model.KindInt64", "case model.KindUint16", "case model.KindUint32", "case model.KindUint64", "case model.KindBin64", "case model.KindBin128", "case model.KindBin256", "case model.KindFloat32", "case model.KindFloat64", "case model.KindBytes", "case model.KindString", "case model.KindAny", "case model.KindAnyMessage", "case model.KindList", "if elem.Kind == model.KindMessage", "case model.KindMessage", "case model.KindEnum, model.KindStruct", "call typeNewFunc(field.Type)", "return nil"]
+def ev_gen_message_writer_field : List String :=
+  ["switch kind", "default", "switch kind", "case model.KindBool", "case model.KindByte", "case model.KindInt16", "case model.KindInt32", "case model.KindInt64", "case model.KindUint16", "case model.KindUint32", "case model.KindUint64", "case model.KindBin64", "case model.KindBin128", "case model.KindBin256", "case model.KindFloat32", "case model.KindFloat64", "case model.KindBytes", "case model.KindString", "call w.linef(`}`)", "case model.KindAny", "call w.linef(`}`)", "call w.linef(`}`)", "case model.KindAnyMessage", "call w.linef(`}`)", "call w.linef(`}`)", "case model.KindEnum", "call typeWriteFunc(field.Type)", "call w.linef(`}`)", "case model.KindStruct", "call typeWriteFunc(field.Type)", "call w.linef(`}`)", "case model.KindList", "call typeWriter(field.Type)", "call typeWriteFunc(field.Type)", "call typeWriteFunc(field.Type.Element)", "call w.linef(`func (w %v) %v() %v {`, wname, fname, writer)", "call w.linef(`w1 := w.w.Field(%d).List()`, tag)", "call w.linef(`return %v(w1, %v)`, buildList, encodeElement)", "call w.linef(`}`)", "case model.KindMessage", "call typeWriter(field.Type)", "call typeWriteFunc(field.Type)", "call w.linef(`func (w %v) %v() %v {`, wname, fname, writer)", "call w.linef(`w1 := w.w.Field(%d).Message()`, tag)", "call w.linef(`return %v(w1)`, writer_new_method)", "call w.linef(`}`)", "call w.linef(`func (w %v) Copy%v(v %v) error {`, wname, fname, tname)", "call w.linef(`return w.w.Field(%d).Any(v.Unwrap().Raw())`, tag)", "call w.linef(`}`)", "return nil"]
+def ev_gen_struct_decode : List String :=
+  ["call w.linef(`func (s *%v) Decode(b []byte) (size int, err error) {`, def.Name)", "for i >= 0", "call typeDecodeFunc(field.Type)", "if field.Type.Kind == model.KindString", "call w.linef(`s.%v, n, err = %v(b[:off])`, fieldName, decodeName)", "return nil"]
+def ev_gen_struct_encode : List String :=
+  ["call w.linef(`func (s %v) EncodeTo(b buffer.Buffer) (int, error) {`, def.Name)", "range fields", "call typeWriteFunc(field.Type)", "call w.linef(`n, err = %v(b, s.%v)`, writeFunc, fieldName)", "return nil"]
+def ev_gen_enum_encode : List String :=
+  ["call w.linef(`func Encode%vTo(b buffer.Buffer, v %v) (int, error) {`, def.Name, def.Name)", "call w.linef(`return spec.EncodeInt32(b, int32(v))`)", "call w.linef(`}`)", "return nil"]
+def ev_gen_enum_decode : List String :=
+  ["call w.linef(`func Decode%v(b []byte) (result %v, size int, err error) {`, name, name)", "call w.linef(`v, size, err := spec.DecodeInt32(b)`)", "call w.linef(`if err != nil || size == 0 { return }`)", "call w.linef(`result = %v(v)`, name)", "call w.linef(`}`)", "return nil"]
 def ev_lexer_Lex : List String :=
   ["for", "call l.s.Scan()", "if token == scanner.EOF", "return EOF", "switch token", "case scanner.Ident", "if ok", "if debugLexer", "if debugLexer", "return lval.yys", "case scanner.Int", "call strconv.ParseInt(text, 10, 64)", "if err != nil", "return yyLexErrorf(l, \"invalid integer %v\", text)", "call yyLexErrorf(l, \"invalid integer %v\", text)", "if debugLexer", "return lval.yys", "case scanner.Float, scanner.Char, scanner.RawString", "if debugLexer", "return yyLexErrorf(l, \"unexpected %v\", text)", "call yyLexErrorf(l, \"unexpected %v\", text)", "case scanner.String", "if debugLexer", "return lval.yys", "case scanner.Comment", "if debugLexer", "default", "if debugLexer", "return lval.yys"]
 def ev_lexer_new : List String :=
